@@ -106,3 +106,50 @@ Lemma rmslice_empty_range_content : forall t (a b : Z) t', wf t -> rmslice t a b
 Proof.
   intros t a b t' Hwf Hrm Heq. rewrite (rmslice_empty_range_id t a b t' Hwf Hrm Heq). reflexivity.
 Qed.
+
+(* ------------------------------------------------------------------ *)
+(* sequences of removals on one lineage (what a strategy run does)     *)
+(* ------------------------------------------------------------------ *)
+
+Fixpoint rm_seq (t : tcase) (ops : list (Z * Z)) : res tcase :=
+  match ops with
+  | [] => Ok t
+  | (a, b) :: r => match rmslice t a b with Ok t' => rm_seq t' r | Err e => Err e end
+  end.
+
+(* the specification of a sequence speaks about the atom list only *)
+Fixpoint spec_seq (z : list (bytes * bool)) (ops : list (Z * Z)) : list (bytes * bool) :=
+  match ops with
+  | [] => z
+  | (a, b) :: r =>
+      let n := n_reducible z in
+      spec_seq (spec_rm (py_clamp n a) (py_clamp n b) 0 z) r
+  end.
+
+Fixpoint ordered_seq (z : list (bytes * bool)) (ops : list (Z * Z)) : bool :=
+  match ops with
+  | [] => true
+  | (a, b) :: r =>
+      let n := n_reducible z in
+      (py_clamp n a <=? py_clamp n b) &&
+      ordered_seq (spec_rm (py_clamp n a) (py_clamp n b) 0 z) r
+  end.
+
+Lemma rm_seq_spec : forall ops t, wf t -> ordered_seq (zipped t) ops = true ->
+  exists t', rm_seq t ops = Ok t' /\ wf t' /\
+    zipped t' = spec_seq (zipped t) ops /\
+    tc_before t' = tc_before t /\ tc_after t' = tc_after t /\
+    tc_len t' <= tc_len t.
+Proof.
+  induction ops as [|[a b] ops IH]; intros t Hwf Hord.
+  - exists t. simpl. repeat split; try reflexivity; try assumption; try lia.
+  - cbn [rm_seq spec_seq ordered_seq] in *.
+    apply andb_true_iff in Hord. destruct Hord as [Hle Hord].
+    apply Z.leb_le in Hle.
+    rewrite <- (n_reducible_eq t Hwf) in *.
+    destruct (rmslice_total t a b Hwf) as [t1 H1]. rewrite H1.
+    destruct (rmslice_spec t a b t1 Hwf H1 Hle) as (Hwf1 & Hz1 & Hb1 & Ha1 & Hl1).
+    rewrite <- Hz1 in *.
+    destruct (IH t1 Hwf1 Hord) as (t' & Hr & Hwf' & Hz' & Hb' & Ha' & Hl').
+    exists t'. repeat split; try assumption; try congruence. lia.
+Qed.
